@@ -76,10 +76,10 @@ type carryAnalysis struct {
 	T       *types.Named
 	fields  []string
 	sums    map[selfKey]*carrySummary
-	defs    map[string][]fieldDef          // whole-field stores per field (all analysed functions)
-	upReads map[string][]ssa.Instruction   // upward-exposed read sites per field
-	reads   map[string][]ssa.Instruction   // every read site per field
-	content map[string][]ssa.Instruction   // content writes per field
+	defs    map[string][]fieldDef        // whole-field stores per field (all analysed functions)
+	upReads map[string][]ssa.Instruction // upward-exposed read sites per field
+	reads   map[string][]ssa.Instruction // every read site per field
+	content map[string][]ssa.Instruction // content writes per field
 	visited map[selfKey]bool
 	callers map[selfKey][]callerSite
 }
